@@ -42,6 +42,7 @@ class Contract:
     loops: Dict[int, str] = field(default_factory=dict)
     proofs: List[Proof] = field(default_factory=list)
     attrs: List[str] = field(default_factory=list)   # extra attributes
+    rewrites: List[Tuple[str, str, str]] = field(default_factory=list)   # (rule, regex, replacement)
     ret_name: str = 'r'
     mode: str = 'verify'          # verify | external_body_spec | external | trusted
     line: int = 0
@@ -106,7 +107,7 @@ def parse_sidecar(paths: List[str]) -> Sidecar:
                 continue
             # block directives: `<directive> {` ... matching `}` at column 0
             m = re.match(r'^(sig|loop\s+\d+|proof\s+(after|before)\s+/(.*)/\s*#(\d+)|proof\s+start|attr\s+.*|ret\s+\w+|'
-                         r'insert\s+\S+\s+\S.*|drop\s+\S+\s+/(.*)/\s*(.*))\s*(\{)?\s*$', s)
+                         r'insert\s+\S+\s+\S.*|drop\s+\S+\s+/(.*)/\s*(.*)|rewrite\s+R\d+\s+/.*/\s*=>.*)\s*(\{)?\s*$', s)
             if not m:
                 raise SpecError('%s:%d cannot parse sidecar line: %s' % (path, i + 1, s))
             head = m.group(1)
@@ -138,6 +139,9 @@ def parse_sidecar(paths: List[str]) -> Sidecar:
                 cur.attrs.append(head[4:].strip().rstrip('{').strip())
             elif head.startswith('ret'):
                 cur.ret_name = head.split()[1]
+            elif head.startswith('rewrite'):
+                mm = re.match(r'rewrite\s+(R\d+)\s+/(.*)/\s*=>\s?(.*)$', head)
+                cur.rewrites.append((mm.group(1), mm.group(2), mm.group(3)))
             elif head.startswith('insert'):
                 parts = head.split(None, 2)
                 file = parts[1]
@@ -422,6 +426,15 @@ def gen_file(em: Emitter, repo: str, mod: ModSpec, sc: Sidecar, res: dict, unit_
             else:
                 txt = txt.lstrip()[4:]
             add_ins(pos, txt, '%s:%s' % (p.cid, c.label), {'contract': c.label})
+        for (rule, rx, rep) in c.rewrites:
+            ms = list(re.finditer(rx, body))
+            if not ms:
+                raise SpecError('%s: rewrite %s /%s/ does not match in %s' % (c.src, rule, rx, c.label))
+            for m in ms:
+                add_del(body_s + m.start(), body_s + m.end(), rule)
+                add_ins(body_s + m.end(), m.expand(rep), rule)
+                res['rewrites'].append({'rule': rule, 'file': fkey, 'line': src.count('\n', 0, body_s + m.start()) + 1,
+                                        'fn': f.name, 'from': m.group(0), 'to': m.expand(rep)})
         # R2: or-pattern with guard inside verified bodies
         _rewrite_or_guard(toks, pairs, f, src, add_ins, add_del, res, fkey)
 
